@@ -253,7 +253,10 @@ class PopAllLoop:
         self.c = contract
 
     def run_for(self, I, node, it, fr):
-        if not (len(node.body) == 1 and _ast.unparse(node.body[0]) == 'buf.popleft()' and _ast.unparse(node.iter) == 'self.buffers.values()'):
+        tgt = node.target.id if isinstance(node.target, _ast.Name) else None
+        # (the loop variable may have any name)
+        if not (tgt and len(node.body) == 1 and _ast.unparse(node.body[0]) == tgt + '.popleft()'
+                and _ast.unparse(node.iter) == 'self.buffers.values()'):
             raise Unsupported('the pop-all loop of zip.update has changed shape: ' + _ast.unparse(node))
         selfv = fr.locals['self']
         dv = I.get_attr(selfv, 'buffers', fr)
